@@ -167,23 +167,7 @@ func (t1 *Type1Font) parseEncoding(fontDict core.Dict, resolver func(core.Indire
 // applyEncodingDifferences applies the Differences array to customize encoding
 // Format: [code name1 name2 ... code name1 name2 ...]
 func (t1 *Type1Font) applyEncodingDifferences(diffs core.Array) error {
-	code := 0
-	for _, item := range diffs {
-		switch v := item.(type) {
-		case core.Int:
-			// This is a starting code
-			code = int(v)
-		case core.Name:
-			// This is a glyph name mapped to current code
-			// We would need a glyph name to Unicode mapping table here
-			// For now, just increment the code
-			// TODO: Implement proper glyph name to Unicode mapping
-			code++
-		default:
-			return fmt.Errorf("invalid differences array item: %T", item)
-		}
-	}
-	return nil
+	return t1.Font.applyDifferences(diffs)
 }
 
 // parseWidths extracts character width information from the font dictionary
